@@ -274,6 +274,47 @@ MUTANTS = [
      "            if let StringLiteralQuoteType::Brackets = quote_type {",
      "            if matches!(quote_type, StringLiteralQuoteType::Brackets) || literal.contains('\\n') {",
      "quoted-string-path-without-get_quote_to_use"),
+    # ---- R-RAW -------------------------------------------------------------------------------------------------
+    ("raw-semicolon-comment-unsanitised", "C10", "src/formatters/block.rs",
+     """                                    vec![
+                                        Token::new(TokenType::spaces(1)),
+                                        format_moved_comment(&ctx, x, shape),
+                                    ]
+                                }),
+                        )
+                        .chain(std::iter::once(create_newline_trivia(&ctx)))
+                        .collect();
+
+                    stmt = stmt""",
+     """                                    vec![Token::new(TokenType::spaces(1)), x.to_owned()]
+                                }),
+                        )
+                        .chain(std::iter::once(create_newline_trivia(&ctx)))
+                        .collect();
+
+                    stmt = stmt""", "raw-trivia-attached"),
+    ("raw-field-equal-comments-unsanitised", "C10", "src/formatters/table.rs",
+     "        .chain(equal_sign_comments.map(|x| format_moved_comment(ctx, x, shape)))",
+     "        .chain(equal_sign_comments.map(|x| x.to_owned()))", "raw-trivia-attached via=handle_field_key_equals_comments"),
+    ("raw-hang-binop-rhs-comments", "C10", "src/formatters/expression.rs",
+     """    let mut expression_leading_comments = rhs
+        .leading_comments()
+        .iter()
+        .flat_map(|x| {
+            vec![
+                create_newline_trivia(ctx),
+                create_indent_trivia(ctx, shape),
+                format_moved_comment(ctx, x, shape),
+            ]""",
+     """    let mut expression_leading_comments = rhs
+        .leading_comments()
+        .iter()
+        .flat_map(|x| {
+            vec![
+                create_newline_trivia(ctx),
+                create_indent_trivia(ctx, shape),
+                x.to_owned(),
+            ]""", "hang_binop raw-trivia-attached"),
     ("loopexit-metadata", "C14", "src/cli/main.rs",
      "                    if path.is_file() {", "                    if fs::metadata(&path)?.is_file() {", "walk-loop-aborts-on"),
     ("errstatus-revert", "C13", "src/cli/main.rs",
